@@ -23,6 +23,7 @@ RULE = ('Hypothesis generates SED files (2..20 wavelengths in either storage ord
         'A->B->A identity, A->B->C == A->C via convert_flux, and that targets K / m / Hz are refused. Non-trivial = stored '
         'and requested units of different families (F_nu, F, L); distinct = distinct canonical JSON.')
 RULE += (' ' + "Files in double or single precision ('E' columns), a quarter with faint fluxes (x 1e-16); cells whose value or intermediate leaves the single-precision range are not compared.")
+RULE += (' ' + 'The FREQUENCY / WAVELENGTH columns (and the frequencies handed to convert_flux) are typed in Hz, MHz, GHz or THz / micron, nm or cm.')
 ASSUMPTIONS = [
     'relative tolerance 1e-12 (a handful of float multiplications)',
     'luminosity-type values follow L = F*d^2 as the property states (no 4 pi)',
@@ -54,7 +55,13 @@ def cases(draw):
             # the error column may be stored in its own unit (any of the supported ones)
             'err_stored': draw(st.one_of(st.none(), st.sampled_from(UNITS))),
             # model packages store SEDs in single precision ('E' columns); the faint ends of real SEDs reach 1e-30 mJy
-            'dtype': draw(st.sampled_from(['D', 'D', 'E'])), 'faint': draw(st.integers(0, 3)) == 0}
+            'dtype': draw(st.sampled_from(['D', 'D', 'E'])), 'faint': draw(st.integers(0, 3)) == 0,
+            # the units the spectral columns of the file are typed in ("any frequency grid")
+            'nu_unit': draw(st.sampled_from(['Hz', 'Hz', 'GHz', 'THz', 'MHz'])), 'wav_unit': draw(st.sampled_from(['um', 'um', 'nm', 'cm']))}
+
+
+NU_FACTOR = {'Hz': 1., 'HZ': 1., 'MHz': 1e6, 'GHz': 1e9, 'THz': 1e12}
+WAV_FACTOR = {'um': 1., 'MICRONS': 1., 'nm': 1e3, 'cm': 1e-4}
 
 
 def run_case(case, ctx):
@@ -88,10 +95,20 @@ def run_case(case, ctx):
         path = os.path.join(d, 'x_sed.fits')
         swav = [wav[i] for i in idx]
         legacy = case['spelling'] == 'ergs/cm^2/s'
-        pkgio.write_sed_file(path, 'x', swav, pkgio.wav_to_nu(swav), case['apertures'],
+        nu_unit = 'HZ' if legacy else case.get('nu_unit', 'Hz')
+        wav_unit = 'MICRONS' if legacy else case.get('wav_unit', 'um')
+        nfac, wfac = NU_FACTOR[nu_unit], WAV_FACTOR[wav_unit]
+        labels.add('spectral_columns_in_%s_%s' % (nu_unit, wav_unit))
+        file_nu = [v / nfac for v in pkgio.wav_to_nu(swav)]
+        file_wav = [w * wfac for w in swav]
+
+        def nu_hz(w):
+            # the frequency the file states for the wavelength w (single precision files hold the nearest float32)
+            return f32(om.C_UM_HZ / w / nfac) * nfac
+        pkgio.write_sed_file(path, 'x', file_wav, file_nu, case['apertures'],
                              [[row[i] for i in idx] for row in case['flux']], [[row[i] for i in idx] for row in err],
                              flux_unit=case['spelling'], err_unit=espell, distance_cm=None if case['distance_kpc'] is None else dcm,
-                             wav_unit='MICRONS' if legacy else 'um', nu_unit='HZ' if legacy else 'Hz', dtype=case.get('dtype', 'D'))
+                             wav_unit=wav_unit, nu_unit=nu_unit, dtype=case.get('dtype', 'D'))
         with must_succeed('SED.read(unit_flux=%s) of a file stored in %r' % (B, case['spelling'])):
             s = SED.read(path, unit_flux=U(B), order='wav')
         got = np.asarray(s.flux.to(U(B)).value)
@@ -99,7 +116,7 @@ def run_case(case, ctx):
         sw = s.wav.to(u.micron).value
         for a in range(nap):
             for p in range(nw):
-                nu = f32(om.C_UM_HZ / wav[p])
+                nu = nu_hz(wav[p])
                 want = om.convert_flux_ref(case['flux'][a][p], nu, A, B, dcm)
                 wante = om.convert_flux_ref(err[a][p], nu, E, B, dcm)
                 if abs(sw[p] - wav[p]) > (1e-6 if single else 1e-12) * wav[p]:
@@ -115,17 +132,17 @@ def run_case(case, ctx):
         # a second file on the same frequency grid but at another distance, read right after the first
         d2cm = dcm * 3.
         path2 = os.path.join(d, 'y_sed.fits')
-        pkgio.write_sed_file(path2, 'y', swav, pkgio.wav_to_nu(swav), case['apertures'],
+        pkgio.write_sed_file(path2, 'y', file_wav, file_nu, case['apertures'],
                              [[row[i] for i in idx] for row in case['flux']], [[row[i] for i in idx] for row in err],
                              flux_unit=case['spelling'], err_unit=espell, distance_cm=d2cm,
-                             wav_unit='MICRONS' if legacy else 'um', nu_unit='HZ' if legacy else 'Hz', dtype=case.get('dtype', 'D'))
+                             wav_unit=wav_unit, nu_unit=nu_unit, dtype=case.get('dtype', 'D'))
         with must_succeed('SED.read of a second file'):
             s2 = SED.read(path2, unit_flux=U(B), order='wav')
         got2 = np.asarray(s2.flux.to(U(B)).value)
         for a in range(nap):
             for p in range(nw):
-                want = om.convert_flux_ref(case['flux'][a][p], f32(om.C_UM_HZ / wav[p]), A, B, d2cm)
-                if not representable(want, om.convert_flux_ref(case['flux'][a][p], f32(om.C_UM_HZ / wav[p]), A, 'erg/cm2/s', d2cm)):
+                want = om.convert_flux_ref(case['flux'][a][p], nu_hz(wav[p]), A, B, d2cm)
+                if not representable(want, om.convert_flux_ref(case['flux'][a][p], nu_hz(wav[p]), A, 'erg/cm2/s', d2cm)):
                     continue
                 if abs(got2[a][p] - want) > rtol * abs(want):
                     fail('a second file (same frequencies, distance %r cm instead of %r cm) stored in %s read as %s gives %r, '
@@ -136,8 +153,8 @@ def run_case(case, ctx):
         with must_succeed('building and writing an SED with SED.write'):
             so.name = 'z'
             so.distance = dcm * u.cm
-            so.wav = np.array(wav) * u.micron
-            so.nu = so.wav.to(u.Hz, equivalencies=u.spectral())
+            so.wav = (np.array(wav) * u.micron).to(u.Unit(case.get('wav_unit', 'um')))
+            so.nu = so.wav.to(u.Unit(case.get('nu_unit', 'Hz')), equivalencies=u.spectral())
             so.apertures = np.array(case['apertures']) * u.au
             so.flux = np.array(case['flux']) * U(A)
             so.error = np.array(err) * U(E)
@@ -148,7 +165,7 @@ def run_case(case, ctx):
         g3, e3 = np.asarray(s3.flux.to(U(B)).value), np.asarray(s3.error.to(U(B)).value)
         for a in range(nap):
             for p in range(nw):
-                nu_p = float(so.nu[p].value)
+                nu_p = float(so.nu[p].to(u.Hz).value)
                 want = om.convert_flux_ref(case['flux'][a][p], nu_p, A, B, dcm)
                 wante = om.convert_flux_ref(err[a][p], nu_p, E, B, dcm)
                 if abs(g3[a][p] - want) > 1e-12 * abs(want) or abs(e3[a][p] - wante) > 1e-12 * abs(wante):
@@ -163,7 +180,7 @@ def run_case(case, ctx):
         else:
             fail('SED.read accepted the unsupported flux unit %s' % bad, 'c15:unsupported_accepted')
     # direct conversions: A -> B -> A and A -> B -> C == A -> C
-    nu = np.array([om.C_UM_HZ / w for w in wav]) * u.Hz
+    nu = (np.array([om.C_UM_HZ / w for w in wav]) * u.Hz).to(u.Unit(case.get('nu_unit', 'Hz')))
     fa = np.array(case['flux']) * U(A)
     dist = dcm * u.cm
     with must_succeed('convert_flux %s -> %s -> %s / %s' % (A, B, A, C)):
